@@ -99,7 +99,7 @@ Definition classify_scan (s : state) (kind : N) (readTs : N) (pw : list rec) (rv
     else if (kind =? 0) && negb (db_simple s) then 2
     else if (kind =? 1) && rv && negb allv && match bad with [] => false | _ => true end
             && forallb (multi_visible s readTs pw) bad then 3
-    else if (kind =? 1) && prefix_pair pw then 4
+    else if (kind =? 1) && prefix_pair pw && match bad with [] => true | _ => false end then 4
     else 0.
 
 Definition probe_verdict (now : N) (s : state) (ws : list rec) (p : probe) : bool * bool * N :=
